@@ -92,7 +92,9 @@ class Native(Stage):
         out = []
         for i in range(n):
             outpath = os.path.join(ctx.rundir, f"{self.name}-{i}.json")
-            cmd = self.base_cmd(ctx) + [self.monitor, "--tier", ctx.tier, "--seed", str(ctx.seed), "--shard", f"{i}/{n}",
+            # sanitizer stages size their workload from the quick tier (times --scale), whatever the driver's tier
+            tier = getattr(self, "force_tier", None) or ctx.tier
+            cmd = self.base_cmd(ctx) + [self.monitor, "--tier", tier, "--seed", str(ctx.seed), "--shard", f"{i}/{n}",
                                         "--out", outpath] + self.args + ctx.passthru
             env = dict(os.environ)
             env.update(self.env)
@@ -154,6 +156,7 @@ class Miri(Native):
     """the same monitor binary interpreted by Miri (RustCrypto backends + core only: Miri cannot cross C FFI)"""
     tool = "miri"
     thorough_only = True
+    force_tier = "quick"
 
     def __init__(self, name, monitor, args, shards=16, timeout=2400, note="", prop="C04"):
         super().__init__(name, monitor, shards=shards, args=args, timeout=timeout, thorough_only=True, note=note)
@@ -187,6 +190,7 @@ class Valgrind(Native):
     """valgrind memcheck with leak checking over the monitor binary (FFI backends)"""
     tool = "valgrind-memcheck"
     thorough_only = True
+    force_tier = "quick"
 
     def __init__(self, name, monitor, args, shards=16, timeout=3600, note="", prop="C04"):
         super().__init__(name, monitor, shards=shards, args=args, timeout=timeout, thorough_only=True, note=note)
@@ -314,7 +318,32 @@ def c02(ctx):
 
 
 def c03(ctx):
-    return [SelfTest(), Native("differential", "c03")]
+    return [SelfTest(), Native("differential", "c03"),
+            Hooked("derived-counter-hook", "h1", args=["--part", "C03"], shards=8, quick_shards=8,
+                   note="hook H1: v3 local tokens with a forced derived counter block that wraps 64 bits")]
+
+
+class Hooked(Native):
+    """monitor binary built with the repository's verification hook enabled (RUSTFLAGS=--cfg paseto_verif)"""
+    tool = "native, /repo built with --cfg paseto_verif (hook H1: forced derived AES-CTR counter block)"
+
+    def jobs(self, ctx):
+        import subprocess, time
+        env = ctx.cargo_env()
+        env["RUSTFLAGS"] = "--cfg paseto_verif"
+        tdir = os.path.join(ctx.harness, "target-hook")
+        t0 = time.time()
+        with open(os.path.join(ctx.rundir, "build-hook.log"), "w") as f:
+            r = subprocess.run(["cargo", "build", "--offline", "--profile", "monitor", "--target-dir", tdir], cwd=ctx.harness, env=env,
+                               stdout=f, stderr=subprocess.STDOUT)
+        ctx.log(f"[build] hook: exit {r.returncode} in {time.time()-t0:.1f}s")
+        if r.returncode != 0:
+            return [("build-failed", ["false"], dict(os.environ), None, 10)]
+        self._bin = os.path.join(tdir, "monitor", "pvmon")
+        return super().jobs(ctx)
+
+    def base_cmd(self, ctx):
+        return [self._bin]
 
 
 class NativeRelease(Native):
@@ -359,7 +388,9 @@ def c06(ctx):
 
 
 def c07(ctx):
-    return [SelfTest(), Native("differential", "c07")]
+    return [SelfTest(), Native("differential", "c07"),
+            Hooked("derived-counter-hook", "h1", args=["--part", "C07"], shards=8, quick_shards=8,
+                   note="hook H1: k1/k3 PIE wraps and key seals with a forced derived counter block that wraps 64 bits")]
 
 
 def c08(ctx):
